@@ -39,6 +39,9 @@ MINI = {
                      ("prop", "l2", "enable", B(">", V("t1"), I(3)))], ["a"], [], "value"),
     "cell": ([IN["a"], IN["t"], ("mem", "m", "signal-M"), ("write", "m", ("proj", V("a"), "signal-M"), B(">", V("t"), I(0))),
               ("decl", "Signal", "r", B("+", ("read", "m"), I(1)))], ["a", "t"], ["r"], "stateful"),
+    # a write-gated cell ON signal-A (the type the other mini-programs compute with)
+    "cell-on-A": ([IN["a"], IN["t"], ("mem", "m", "signal-A"), ("write", "m", V("a"), B(">", V("t"), I(0))),
+                   ("decl", "Signal", "r", B("+", ("read", "m"), I(1)))], ["a", "t"], ["r"], "stateful"),
     "latch": ([IN["a"], ("mem", "l", "signal-L"), ("latch", "l", I(1), B("<", V("a"), I(2)), B(">=", V("a"), I(3)), "sr"),
                ("decl", "Signal", "r", B("*", ("read", "l"), I(2)))], ["a"], ["r"], "stateful"),
 }
@@ -75,7 +78,7 @@ class C12(core.Check):
     pid = "C12"
     level = "model_checking"
     timeout = 400
-    rule = ("all ordered pairs (P, Q) of an 18-program corpus (incl. a consumer 40 tiles away, also built with medium poles / substations) that reuse the same signal names and constants, names made "
+    rule = ("all ordered pairs (P, Q) of a 19-program corpus (incl. a consumer 40 tiles away, also built with medium poles / substations) that reuse the same signal names and constants, names made "
             "disjoint, x order-preserving interleavings of their statements (all of them in the thorough tier, 6 spread "
             "over the whole set in the quick tier); P's outputs and entity conditions in build(P;Q) are compared with "
             "build(P) for the full product of P's and Q's input values; stateful P by lock-step BFS over events on P's "
